@@ -13,9 +13,11 @@ TEXT = ("Typestate analysis of the four-state field Delta.status, exhaustive ove
         "written in exactly one function and, on every path that enters an iteration of the parents / packs / changes "
         "loops, only through the pass edges of all dependency checks (parent known; parent Ready or Applied; pack loads "
         "with matching hash; object of the revision and of its predecessor readable and valid) - decided by "
-        "reachability with the pass edges removed. A3: the extracted (guard-state -> written-state) table is a subset "
+        "reachability with the pass edges removed; no dependency loop is guarded by the presence of another dependency "
+        "field. A3: the extracted (guard-state -> written-state) table is a subset "
         "of the legal transition table. A4: refresh re-examines Blocked blocks before marking, reload* start from an "
-        "empty map. A5: the object-availability predicate returns true only on index membership or a verified read. "
+        "empty map, every Ok return lies behind the marking and apply passes, and no block is parsed into the block map "
+        "after a marking step has run. A5: the object-availability predicate returns true only on index membership or a verified read. "
         "Does not decide equality of incremental refreshes with a full reload over histories.")
 TRUSTED = ["rustc nightly MIR", "derive(PartialEq) on the fieldless enum Status compares discriminants",
            "C10/H1: the pack loader and the object reader verify hashes"]
@@ -247,6 +249,25 @@ def run(facts, res):
             if not ok:
                 res.violation("A4", "%s|early-success-skips:%s" % (name, what.replace(" ", "-")),
                               "%s can return Ok without having run the %s: a block held back earlier would stay held back although its dependencies have arrived" % (name, what), b.loc())
+    # A4c: dependency checks see the whole listing: no block is parsed into the block map after a marking step has
+    # run (a block checked while its parents are still unparsed would be held back by listing order alone)
+    for name in ("melda::Melda::reload", "melda::Melda::refresh", "melda::Melda::reload_until"):
+        b = facts.body(name)
+        if b is None:
+            continue
+        cfg = cfg_of(b)
+        ready_fn = ready_fns[0] if ready_fns else None
+        marks = [s for s in cg.sites[b.path] if not s.fanout and ready_fn is not None and
+                 any(t.path == ready_fn or (cg.reaches(t, ready_fn) and not t.public) for t in s.targets + s.closures)]
+        inserts = [s for s in cg.sites[b.path] if s.callee is not None and s.callee.name == "insert" and s.term.args
+                   and "deltas" in field_path(arg_term(b, s.term, 0))[0]]
+        late = [(m_, i_) for m_ in marks for i_ in inserts if cfg.reaches(m_.block, i_.block)]
+        n4 += 1
+        res.instance("A4", "%s: %d marking site(s), %d block-map insert(s); no insert is reachable from a marking site: %s" % (name, len(marks), len(inserts), not late), b.loc())
+        if late:
+            res.violation("A4", "%s|marks-before-listing-is-parsed" % name,
+                          "%s runs the dependency check (%s) at a point from which further blocks are still parsed into the block map: a block "
+                          "listed before its parent is held back although the parent is in storage" % (name, late[0][0].name()), late[0][0].loc())
     res.floor("A4", "refresh/reload anchors", n4, 3)
 
     # ------------------------------------------------------------------ A5
@@ -415,6 +436,27 @@ def check_ready_earned(b, ready_block, facts, res):
             res.violation("A2", "%s|missing-guard:%s" % (b.path, what.replace(" ", "_")),
                           "%s can write status = Ready after an iteration of the `%s` loop without passing the check `%s`" % (b.path, fld, what),
                           b.loc())
+
+    # A2c: a dependency loop runs whenever its own field is present: its header is not guarded by the presence or
+    # absence of another dependency field (e.g. objects checked only when the block ships a pack)
+    DEPF = ("parents", "packs", "changes")
+    for fld, (entry, ll) in sorted(loops.items()):
+        header = ll.edge[0]
+        bad = []
+        for l in lits_of(b, header, facts):
+            if l.kind != "variant" or not l.variants or not l.variants <= {"Some", "None"}:
+                continue
+            pt = peel(l.term)
+            if pt[0] == "call" and callee_name(pt) == "next":
+                continue        # exit edge of a preceding loop
+            flds = {x[2] for x in walk(l.term) if x[0] == "field" and x[2] in DEPF}
+            if flds and fld not in flds:
+                bad.append((sorted(flds), sorted(l.variants)))
+        res.instance("A2", "%s loop is entered whenever `%s` is present (no guard on another dependency field): %s" % (fld, fld, not bad), b.loc())
+        if bad:
+            res.violation("A2", "%s|%s-check-conditional-on:%s" % (b.path, fld, ",".join(bad[0][0])),
+                          "%s runs the `%s` dependency checks only when `%s` is %s: a block for which that does not hold becomes Ready unchecked" % (
+                              b.path, fld, ",".join(bad[0][0]), "/".join(bad[0][1])), b.loc())
 
     def is_call(l, name, truth):
         return l.kind == "call" and callee_name(l.term) == name and l.truth is truth
